@@ -18,6 +18,7 @@ repeated slashes.
 """
 from __future__ import annotations
 
+import os
 import shutil
 from pathlib import Path
 
@@ -117,9 +118,10 @@ def _check(case, base):
     from pydra.environments import native
 
     e = case["env"]
-    built = G.materialise(case["defn"], base / "in")
     cache_root = base / case.get("cache", "cache")
     cache_root.mkdir()
+    built = G.materialise(case["defn"], base / "in", special={"@cache": cache_root})
+    keep = set(os.listdir(cache_root))  # input files placed directly in the cache root
     try:
         native_argv, cache_dir = _run(built, cache_root, native.Environment())
     except HarnessError:
@@ -127,8 +129,9 @@ def _check(case, base):
     except Exception as ex:  # noqa: the definition is not runnable natively: not C27's business
         _note("native_raised:" + type(ex).__name__)
         return []
-    shutil.rmtree(cache_root)
-    cache_root.mkdir()
+    for entry in set(os.listdir(cache_root)) - keep:  # same cache root, emptied of the first run
+        q = cache_root / entry
+        shutil.rmtree(q) if q.is_dir() and not q.is_symlink() else q.unlink()
     infos = host_paths(built, cache_dir)
     joined_native = " ".join(native_argv)
     for p, _rw, source, rendered in infos:
